@@ -47,7 +47,8 @@ func runDgram(cfg *runCfg) error {
 	dist := map[string]int{}
 	distinct := map[string]bool{}
 	var samples, implFail []any
-	add := func(kind string, data []byte, want *msg.NatHoleSid) {
+	var add func(kind string, data []byte, want *msg.NatHoleSid)
+	addK := func(key []byte, kind string, data []byte, want *msg.NatHoleSid) {
 		// oracles: the cipher (golib crypto.Decode on a copy) and the JSON layer (msg.ReadMsgInto on its output)
 		var plain []byte
 		if p, err := crypto.Decode(append([]byte{}, data...), key); err == nil {
@@ -60,8 +61,8 @@ func runDgram(cfg *runCfg) error {
 		}
 		obs, got, ptxt := decodeObserved(data, key)
 		same := true
-		if want != nil && obs == 0 {
-			same = reflect.DeepEqual(got, *want)
+		if want != nil { // a datagram written by EncodeMessage under this key: must be read back, equal
+			same = obs == 0 && reflect.DeepEqual(got, *want)
 		}
 		c := fmt.Sprintf("CDgram %s %s %s %d %s", coqHx(data), coqHx(plain), coqBool(jsonOK), obs, coqBool(same))
 		cf.Cases = append(cf.Cases, c)
@@ -72,9 +73,26 @@ func runDgram(cfg *runCfg) error {
 				"what": fmt.Sprintf("nathole.DecodeMessageInto panicked on a %d-byte datagram (%s); waitDetectMessage has no recover: the frpc process dies", len(data), ptxt),
 				"case": c})
 		}
+		if !same && obs != 2 {
+			implFail = append(implFail, map[string]any{"key": "dgram:roundtrip",
+				"what": fmt.Sprintf("a datagram written by nathole.EncodeMessage under a %d-byte key is not read back by DecodeMessageInto under the same key (obs=%d)", len(key), obs),
+				"case": c})
+		}
 		if len(samples) < 5 && len(data) < 60 && len(data) >= 16 {
 			samples = append(samples, map[string]any{"kind": kind, "datagram_hex": fmt.Sprintf("%x", data), "obs": obs})
 		}
+	}
+	add = func(kind string, data []byte, want *msg.NatHoleSid) { addK(key, kind, data, want) }
+	// every key length 0..33 (xtcp without secretKey has an EMPTY key): what EncodeMessage writes under a key,
+	// DecodeMessageInto must read back under the same key
+	for kl := 0; kl <= 33; kl++ {
+		k := g.bytes(kl)
+		m := &msg.NatHoleSid{TransactionID: g.str(), Sid: "sid-" + fmt.Sprint(kl), Response: kl%2 == 0, Nonce: g.str()}
+		d, err := nathole.EncodeMessage(m, k)
+		if err != nil {
+			return err
+		}
+		addK(k, fmt.Sprintf("key-length-%s", map[bool]string{true: "0", false: ">0"}[kl == 0]), d, m)
 	}
 	enc := func(plain []byte) []byte {
 		b, _ := crypto.Encode(plain, key)
@@ -124,11 +142,27 @@ func runDgram(cfg *runCfg) error {
 		case 8: // encrypted under another key
 			d, _ := crypto.Encode(sidFrame, []byte("some other key"))
 			add("wrong-key", d, nil)
-		default: // body exactly at / just over the bound
+		default: // body exactly at / just over the bound: 10 KiB of ciphertext per case is too slow to push through
+			// Coq's string-literal parser, so these are checked on the Go side against the reference path
+			// (crypto.Decode + msg.ReadMsgInto, whose bound the codec driver ties to the model)
 			l := 10239 + g.intn(3)
 			body := append([]byte(`{"nonce":"`), bytes.Repeat([]byte{'a'}, l-12)...)
 			body = append(body, '"', '}')
-			add("bound", enc(frame('5', int64(len(body)), body)), nil)
+			d := enc(frame('5', int64(len(body)), body))
+			obs, _, _ := decodeObserved(d, key)
+			wantObs := 1
+			if p, err := crypto.Decode(append([]byte{}, d...), key); err == nil {
+				var ref msg.NatHoleSid
+				if msg.ReadMsgInto(bytes.NewReader(p), &ref) == nil {
+					wantObs = 0
+				}
+			}
+			if (len(body) <= 10240) != (wantObs == 0) || obs != wantObs {
+				implFail = append(implFail, map[string]any{"key": "dgram:bound",
+					"what": fmt.Sprintf("datagram with a %d-byte body: DecodeMessageInto obs=%d, reference path obs=%d, bound 10240", len(body), obs, wantObs),
+					"case": fmt.Sprintf("body length %d", len(body))})
+			}
+			dist[fmt.Sprintf("bound(go-side) len=%d obs=%d", len(body), obs)]++
 		}
 	}
 	// property monitor on the implementation only (C17_datagram_roundtrip says the model passes it): volume of
